@@ -1,8 +1,1550 @@
-//! C13 — not implemented yet (stub).
-use crate::engine::Opts;
-pub fn main(_opts: &Opts) -> i32 {
-    eprintln!("C13: check not implemented");
-    2
+//! C13 — SPARQL evaluation returns exactly the algebra's solutions or 'not implemented'.
+//!
+//! Query *text* is generated from a grammar (own AST, rendered to SPARQL), parsed with spargebra,
+//! evaluated by a naive reference evaluator over the algebra, and compared with
+//! `SparqlWrapper(&dataset).query(text)`.
+use crate::c14::{classify, num_rel, run_query, Dec, NumTy, NumVal, Outcome, Rel, VClass};
+use crate::engine::*;
+use crate::model::*;
+use crate::stores::*;
+use proptest::prelude::*;
+use serde::{Deserialize, Serialize};
+use serde_json::{json, Value};
+use spargebra::algebra::{Expression, Function, GraphPattern, OrderExpression};
+use spargebra::term::{NamedNodePattern, TermPattern, TriplePattern};
+use std::collections::{BTreeMap, BTreeSet};
+
+// ====================================================================== query AST (generator side)
+
+/// term in a triple pattern
+#[derive(Clone, Debug, Serialize, Deserialize)]
+pub enum T {
+    Var(String),
+    /// blank-node placeholder (label made unique per triples block at render time)
+    Bn(String),
+    Anon,
+    C(MT),
+    Quoted(Box<TP>),
+}
+#[derive(Clone, Debug, Serialize, Deserialize)]
+pub struct TP {
+    pub s: T,
+    pub p: T,
+    pub o: T,
+}
+#[derive(Clone, Debug, Serialize, Deserialize)]
+pub enum E {
+    Var(String),
+    C(MT),
+    /// op in = != < > <= >= && || + - *
+    Bin(String, Box<E>, Box<E>),
+    Not(Box<E>),
+    Neg(Box<E>),
+    Bound(String),
+    /// isIRI isBlank isLiteral str lang datatype  (and unimplemented ones: e.g. ucase is fine, MD5 ...)
+    F1(String, Box<E>),
+    /// sameTerm, and unimplemented binary functions (REGEX, STRDT, STRLANG)
+    F2(String, Box<E>, Box<E>),
+    If(Box<E>, Box<E>, Box<E>),
+    Coalesce(Vec<E>),
+    /// NOW() etc
+    F0(String),
+}
+#[derive(Clone, Debug, Serialize, Deserialize)]
+pub enum El {
+    Triples(Vec<TP>),
+    Filter(E),
+    Bind(E, String),
+    Union(Vec<G>),
+    /// name: Var or C(iri)
+    Graph(T, G),
+    Sub(Box<Sel>),
+    Group(G),
+    Optional(G),
+    Minus(G),
+    Values(String, Vec<MT>),
+    /// subject, path text, object
+    Path(T, String, T),
+    Service(G),
+}
+#[derive(Clone, Debug, Serialize, Deserialize)]
+pub struct G(pub Vec<El>);
+#[derive(Clone, Debug, Serialize, Deserialize)]
+pub enum PItem {
+    V(String),
+    Expr(E, String),
+    /// aggregate text e.g. COUNT(?a), alias
+    Agg(String, String),
+}
+#[derive(Clone, Debug, Serialize, Deserialize)]
+pub struct Sel {
+    pub distinct: bool,
+    /// None = *
+    pub proj: Option<Vec<PItem>>,
+    pub body: G,
+    pub group_by: Option<String>,
+    pub order: Vec<(bool, E)>,
+    pub offset: Option<u32>,
+    pub limit: Option<u32>,
+}
+#[derive(Clone, Debug, Serialize, Deserialize)]
+pub enum Form {
+    Select(Sel),
+    Ask(G),
+    Construct(G),
+    Describe(G),
+}
+#[derive(Clone, Debug, Serialize, Deserialize)]
+pub struct Q {
+    pub from: Vec<String>,
+    pub from_named: Vec<String>,
+    pub form: Form,
+}
+
+pub fn render_mt(t: &MT) -> String {
+    match t {
+        MT::Iri(i) => format!("<{i}>"),
+        MT::Bnode(b) => format!("_:{b}"),
+        MT::Lit(l, d) if d == XSD_STRING => format!("\"{}\"", esc(l)),
+        MT::Lit(l, d) => format!("\"{}\"^^<{d}>", esc(l)),
+        MT::Lang(l, t) => format!("\"{}\"@{t}", esc(l)),
+        MT::Triple(t) => format!("<< {} {} {} >>", render_mt(&t[0]), render_mt(&t[1]), render_mt(&t[2])),
+        MT::Var(v) => format!("?{v}"),
+    }
+}
+fn esc(s: &str) -> String {
+    s.replace('\\', "\\\\").replace('"', "\\\"").replace('\n', "\\n").replace('\r', "\\r").replace('\t', "\\t")
+}
+
+struct R {
+    block: usize,
+}
+impl R {
+    fn t(&self, t: &T) -> String {
+        match t {
+            T::Var(v) => format!("?{v}"),
+            T::Bn(b) => format!("_:{b}k{}", self.block),
+            T::Anon => "[]".into(),
+            T::C(m) => render_mt(m),
+            T::Quoted(tp) => format!("<< {} {} {} >>", self.t(&tp.s), self.t(&tp.p), self.t(&tp.o)),
+        }
+    }
+    fn e(&self, e: &E) -> String {
+        match e {
+            E::Var(v) => format!("?{v}"),
+            E::C(m) => render_mt(m),
+            E::Bin(op, a, b) => format!("({} {op} {})", self.e(a), self.e(b)),
+            E::Not(a) => format!("(!{})", self.e(a)),
+            E::Neg(a) => format!("(- {})", self.e(a)),
+            E::Bound(v) => format!("bound(?{v})"),
+            E::F0(f) => format!("{f}()"),
+            E::F1(f, a) => format!("{f}({})", self.e(a)),
+            E::F2(f, a, b) => format!("{f}({}, {})", self.e(a), self.e(b)),
+            E::If(c, a, b) => format!("IF({}, {}, {})", self.e(c), self.e(a), self.e(b)),
+            E::Coalesce(v) => format!("COALESCE({})", v.iter().map(|x| self.e(x)).collect::<Vec<_>>().join(", ")),
+        }
+    }
+    fn g(&mut self, g: &G) -> String {
+        let mut s = String::from("{ ");
+        for el in &g.0 {
+            match el {
+                El::Triples(tps) => {
+                    self.block += 1;
+                    for tp in tps {
+                        s.push_str(&format!("{} {} {} . ", self.t(&tp.s), self.t(&tp.p), self.t(&tp.o)));
+                    }
+                }
+                El::Filter(e) => s.push_str(&format!("FILTER({}) ", self.e(e))),
+                El::Bind(e, v) => s.push_str(&format!("BIND({} AS ?{v}) ", self.e(e))),
+                El::Union(gs) => {
+                    let parts: Vec<String> = gs.iter().map(|g| self.g(g)).collect();
+                    s.push_str(&parts.join(" UNION "));
+                    s.push(' ');
+                }
+                El::Graph(n, g) => {
+                    let n = self.t(n);
+                    s.push_str(&format!("GRAPH {n} {} ", self.g(g)));
+                }
+                El::Sub(sel) => s.push_str(&format!("{{ {} }} ", self.sel(sel))),
+                El::Group(g) => {
+                    let x = self.g(g);
+                    s.push_str(&x);
+                    s.push(' ');
+                }
+                El::Optional(g) => s.push_str(&format!("OPTIONAL {} ", self.g(g))),
+                El::Minus(g) => s.push_str(&format!("MINUS {} ", self.g(g))),
+                El::Values(v, ms) => s.push_str(&format!("VALUES ?{v} {{ {} }} ", ms.iter().map(render_mt).collect::<Vec<_>>().join(" "))),
+                El::Path(a, p, b) => {
+                    self.block += 1;
+                    s.push_str(&format!("{} {p} {} . ", self.t(a), self.t(b)));
+                }
+                El::Service(g) => s.push_str(&format!("SERVICE <http://x/svc> {} ", self.g(g))),
+            }
+        }
+        s.push('}');
+        s
+    }
+    fn sel(&mut self, sel: &Sel) -> String {
+        let mut s = String::from("SELECT ");
+        if sel.distinct {
+            s.push_str("DISTINCT ");
+        }
+        match &sel.proj {
+            None => s.push_str("* "),
+            Some(items) => {
+                for it in items {
+                    match it {
+                        PItem::V(v) => s.push_str(&format!("?{v} ")),
+                        PItem::Expr(e, v) => s.push_str(&format!("({} AS ?{v}) ", self.e(e))),
+                        PItem::Agg(a, v) => s.push_str(&format!("({a} AS ?{v}) ")),
+                    }
+                }
+            }
+        }
+        s.push_str("WHERE ");
+        s.push_str(&self.g(&sel.body));
+        if let Some(v) = &sel.group_by {
+            s.push_str(&format!(" GROUP BY ?{v}"));
+        }
+        if !sel.order.is_empty() {
+            s.push_str(" ORDER BY");
+            for (d, e) in &sel.order {
+                s.push_str(&format!(" {}({})", if *d { "DESC" } else { "ASC" }, self.e(e)));
+            }
+        }
+        if let Some(o) = sel.offset {
+            s.push_str(&format!(" OFFSET {o}"));
+        }
+        if let Some(l) = sel.limit {
+            s.push_str(&format!(" LIMIT {l}"));
+        }
+        s
+    }
+}
+impl Q {
+    pub fn render(&self) -> String {
+        let mut r = R { block: 0 };
+        let ds: String = self
+            .from
+            .iter()
+            .map(|g| format!("FROM <{g}> "))
+            .chain(self.from_named.iter().map(|g| format!("FROM NAMED <{g}> ")))
+            .collect();
+        match &self.form {
+            Form::Select(sel) => {
+                let t = r.sel(sel);
+                // dataset clause goes between the projection and WHERE
+                t.replacen("WHERE ", &format!("{ds}WHERE "), 1)
+            }
+            Form::Ask(g) => format!("ASK {ds}WHERE {}", r.g(g)),
+            Form::Construct(g) => format!("CONSTRUCT {{ ?a <http://x/p> ?b }} {ds}WHERE {}", r.g(g)),
+            Form::Describe(g) => format!("DESCRIBE ?a {ds}WHERE {}", r.g(g)),
+        }
+    }
+}
+
+// ====================================================================== reference evaluator
+
+type Mu = BTreeMap<String, MT>;
+type Tr = [MT; 3];
+
+#[derive(Clone, Debug, PartialEq)]
+enum XErr {
+    Type,
+    /// semantics the harness does not judge: the whole case is skipped
+    Uncertain(&'static str),
+}
+type XR = Result<MT, XErr>;
+
+#[derive(Default, Debug, Clone)]
+struct Flags {
+    /// `error || true` / `error && false` decided a value
+    logic_rescue: bool,
+    /// EBV of an ill-typed numeric literal was taken
+    ebv_illtyped_numeric: bool,
+    /// IF whose condition has no EBV
+    if_cond_error: bool,
+    /// an expression inside GRAPH ?g read ?g while it was not bound by the inner pattern
+    graph_var_in_expr: bool,
+    /// GRAPH over a group that has a solution without matching any triple
+    graph_over_empty_group: bool,
+    /// a nested projection dropped a variable
+    nested_project_drop: bool,
+    /// COALESCE / IF skipped over an error
+    coalesce_skip: bool,
+}
+
+struct Ev {
+    default: Vec<Tr>,
+    named: BTreeMap<String, Vec<Tr>>,
+    flags: Flags,
+    graph_vars: Vec<String>,
+    uncertain: Option<&'static str>,
+}
+
+fn bool_lit(b: bool) -> MT {
+    MT::lit(if b { "true" } else { "false" }, xsd("boolean"))
+}
+fn is_lit(t: &MT) -> bool {
+    t.is_literal()
+}
+fn has_dt(t: &MT, local: &str) -> bool {
+    matches!(t, MT::Lit(_, d) if d.strip_prefix(XSD) == Some(local))
+}
+fn is_integer_typed(t: &MT) -> bool {
+    matches!(t, MT::Lit(_, d) if matches!(d.strip_prefix(XSD), Some("integer" | "long" | "int" | "short" | "byte" | "nonNegativeInteger" | "positiveInteger" | "nonPositiveInteger" | "negativeInteger" | "unsignedLong" | "unsignedInt" | "unsignedShort" | "unsignedByte")))
+}
+fn cls(t: &MT) -> VClass {
+    classify(&Some(t.clone()))
+}
+
+fn mt_of_nn(n: &spargebra::term::NamedNode) -> MT {
+    MT::iri(n.as_str())
+}
+fn mt_of_lit(l: &spargebra::term::Literal) -> MT {
+    match l.language() {
+        Some(tag) => MT::lang(l.value(), tag),
+        None => MT::lit(l.value(), l.datatype().as_str()),
+    }
+}
+
+impl Ev {
+    fn ebv(&mut self, t: &MT) -> Result<bool, XErr> {
+        match cls(t) {
+            VClass::Bool(b) => {
+                if matches!(t, MT::Lit(l, _) if l == "1" || l == "0") {
+                    return Err(XErr::Uncertain("boolean-1-0"));
+                }
+                Ok(b)
+            }
+            VClass::OtherLit("ill-typed-boolean") => Ok(false),
+            VClass::Num(n) => match &n.val {
+                NumVal::NaN => Ok(false),
+                NumVal::Fin(d) => Ok(!d.is_zero()),
+                _ => Ok(true),
+            },
+            VClass::OtherLit("ill-typed-numeric") => {
+                self.flags.ebv_illtyped_numeric = true;
+                Ok(false)
+            }
+            VClass::OtherLit("uncertain-numeric") => Err(XErr::Uncertain("numeric-lexical")),
+            VClass::Str(s) => Ok(!s.is_empty()),
+            VClass::OtherLit("lang") => Ok(!t.lexical().unwrap().is_empty()),
+            _ => Err(XErr::Type),
+        }
+    }
+
+    fn equals(&mut self, a: &MT, b: &MT) -> Result<bool, XErr> {
+        if a.is_triple() || b.is_triple() {
+            return Err(XErr::Uncertain("triple-in-comparison"));
+        }
+        if !is_lit(a) || !is_lit(b) {
+            return Ok(a.same_repr(b));
+        }
+        match (cls(a), cls(b)) {
+            (VClass::Num(x), VClass::Num(y)) => match num_rel(&x, &y) {
+                Rel::Tie => Ok(true),
+                Rel::Unknown => Err(XErr::Uncertain("numeric-corner")),
+                _ => Ok(false),
+            },
+            (VClass::Str(x), VClass::Str(y)) => Ok(x == y),
+            (VClass::Bool(x), VClass::Bool(y)) => {
+                let b10 = |t: &MT| matches!(t, MT::Lit(l, _) if l == "1" || l == "0");
+                if b10(a) || b10(b) {
+                    return Err(XErr::Uncertain("boolean-1-0"));
+                }
+                Ok(x == y)
+            }
+            (VClass::DateTime(..), _) | (_, VClass::DateTime(..)) => Err(XErr::Uncertain("dateTime")),
+            _ => {
+                if a.same_repr(b) {
+                    Ok(true)
+                } else if a.tag().is_some() && b.tag().is_some() {
+                    Err(XErr::Uncertain("lang-vs-lang-equality"))
+                } else if has_dt(a, "boolean") && has_dt(b, "boolean") {
+                    Err(XErr::Uncertain("ill-typed-boolean-equality"))
+                } else if a == b {
+                    // same term up to the case of the language tag
+                    Err(XErr::Uncertain("tag-case"))
+                } else {
+                    Err(XErr::Type)
+                }
+            }
+        }
+    }
+
+    fn compare(&mut self, a: &MT, b: &MT) -> Result<std::cmp::Ordering, XErr> {
+        use std::cmp::Ordering::*;
+        if a.is_triple() || b.is_triple() {
+            return Err(XErr::Uncertain("triple-in-comparison"));
+        }
+        if !is_lit(a) || !is_lit(b) {
+            return Err(XErr::Type);
+        }
+        match (cls(a), cls(b)) {
+            (VClass::Num(x), VClass::Num(y)) => match num_rel(&x, &y) {
+                Rel::Tie => Ok(Equal),
+                Rel::Less => Ok(Less),
+                Rel::Greater => Ok(Greater),
+                Rel::Unknown => Err(XErr::Uncertain("numeric-corner")),
+            },
+            (VClass::Str(x), VClass::Str(y)) => Ok(Ord::cmp(x.as_str(), y.as_str())),
+            (VClass::Bool(x), VClass::Bool(y)) => {
+                let b10 = |t: &MT| matches!(t, MT::Lit(l, _) if l == "1" || l == "0");
+                if b10(a) || b10(b) {
+                    return Err(XErr::Uncertain("boolean-1-0"));
+                }
+                Ok(Ord::cmp(&x, &y))
+            }
+            (VClass::DateTime(..), _) | (_, VClass::DateTime(..)) => Err(XErr::Uncertain("dateTime")),
+            _ => {
+                if a == b {
+                    Err(XErr::Uncertain("order-of-same-unordered-literal"))
+                } else if a.tag().is_some() && b.tag().is_some() {
+                    Err(XErr::Uncertain("lang-vs-lang-order"))
+                } else if has_dt(a, "boolean") && has_dt(b, "boolean") {
+                    Err(XErr::Uncertain("ill-typed-boolean-order"))
+                } else {
+                    Err(XErr::Type)
+                }
+            }
+        }
+    }
+
+    fn int_of(&mut self, t: &MT) -> Result<i128, XErr> {
+        match cls(t) {
+            VClass::Num(n) => {
+                if n.ty != NumTy::Exact || !is_integer_typed(t) {
+                    return Err(XErr::Uncertain("non-integer-arithmetic"));
+                }
+                match &n.val {
+                    NumVal::Fin(d) if d.is_integer() && d.int.len() <= 30 => Ok(d.to_plain().parse::<i128>().unwrap()),
+                    _ => Err(XErr::Uncertain("big-arithmetic")),
+                }
+            }
+            VClass::OtherLit("uncertain-numeric") => Err(XErr::Uncertain("numeric-lexical")),
+            _ => Err(XErr::Type),
+        }
+    }
+
+    fn var(&mut self, name: &str, mu: &Mu) -> Option<MT> {
+        let v = mu.get(name).cloned();
+        if v.is_none() && self.graph_vars.iter().any(|g| g == name) {
+            self.flags.graph_var_in_expr = true;
+        }
+        v
+    }
+
+    fn expr(&mut self, e: &Expression, mu: &Mu) -> XR {
+        use Expression as X;
+        let cmp = |s: &mut Self, a: &Expression, b: &Expression, mu: &Mu, f: fn(std::cmp::Ordering) -> bool| -> XR {
+            let x = s.expr(a, mu);
+            let y = s.expr(b, mu);
+            let (x, y) = (Self::unc_first(x, &y)?, y?);
+            Ok(bool_lit(f(s.compare(&x, &y)?)))
+        };
+        match e {
+            X::NamedNode(n) => Ok(mt_of_nn(n)),
+            X::Literal(l) => Ok(mt_of_lit(l)),
+            X::Variable(v) => self.var(v.as_str(), mu).ok_or(XErr::Type),
+            X::Or(a, b) | X::And(a, b) => {
+                let is_or = matches!(e, X::Or(..));
+                let x = self.expr(a, mu).and_then(|t| self.ebv(&t));
+                let y = self.expr(b, mu).and_then(|t| self.ebv(&t));
+                if let Err(XErr::Uncertain(u)) = &x {
+                    return Err(XErr::Uncertain(u));
+                }
+                if let Err(XErr::Uncertain(u)) = &y {
+                    return Err(XErr::Uncertain(u));
+                }
+                let decisive = is_or; // `true` decides OR, `false` decides AND
+                match (x, y) {
+                    (Ok(p), Ok(q)) => Ok(bool_lit(if is_or { p || q } else { p && q })),
+                    (Ok(p), Err(_)) | (Err(_), Ok(p)) if p == decisive => {
+                        self.flags.logic_rescue = true;
+                        Ok(bool_lit(decisive))
+                    }
+                    _ => Err(XErr::Type),
+                }
+            }
+            X::Equal(a, b) => {
+                let x = self.expr(a, mu);
+                let y = self.expr(b, mu);
+                let (x, y) = (Self::unc_first(x, &y)?, y?);
+                Ok(bool_lit(self.equals(&x, &y)?))
+            }
+            X::SameTerm(a, b) => {
+                let x = self.expr(a, mu);
+                let y = self.expr(b, mu);
+                let (x, y) = (Self::unc_first(x, &y)?, y?);
+                if x == y && !x.same_repr(&y) {
+                    return Err(XErr::Uncertain("tag-case"));
+                }
+                Ok(bool_lit(x.same_repr(&y)))
+            }
+            X::Greater(a, b) => cmp(self, a, b, mu, |o| o.is_gt()),
+            X::GreaterOrEqual(a, b) => cmp(self, a, b, mu, |o| o.is_ge()),
+            X::Less(a, b) => cmp(self, a, b, mu, |o| o.is_lt()),
+            X::LessOrEqual(a, b) => cmp(self, a, b, mu, |o| o.is_le()),
+            X::Add(a, b) | X::Subtract(a, b) | X::Multiply(a, b) => {
+                let x = self.expr(a, mu);
+                let y = self.expr(b, mu);
+                let (x, y) = (Self::unc_first(x, &y)?, y?);
+                let i = self.int_of(&x);
+                let j = self.int_of(&y);
+                let (i, j) = (Self::unc_first(i, &j)?, j?);
+                let r = match e {
+                    X::Add(..) => i.checked_add(j),
+                    X::Subtract(..) => i.checked_sub(j),
+                    _ => i.checked_mul(j),
+                };
+                match r {
+                    Some(r) => Ok(MT::lit(r.to_string(), xsd("integer"))),
+                    None => Err(XErr::Uncertain("overflow")),
+                }
+            }
+            X::UnaryMinus(a) => {
+                let x = self.expr(a, mu)?;
+                let i = self.int_of(&x)?;
+                Ok(MT::lit((-i).to_string(), xsd("integer")))
+            }
+            X::Not(a) => {
+                let x = self.expr(a, mu)?;
+                Ok(bool_lit(!self.ebv(&x)?))
+            }
+            X::Bound(v) => Ok(bool_lit(self.var(v.as_str(), mu).is_some())),
+            X::If(c, a, b) => {
+                let cv = self.expr(c, mu)?;
+                match self.ebv(&cv) {
+                    Ok(true) => self.expr(a, mu),
+                    Ok(false) => self.expr(b, mu),
+                    Err(XErr::Type) => {
+                        self.flags.if_cond_error = true;
+                        Err(XErr::Type)
+                    }
+                    Err(u) => Err(u),
+                }
+            }
+            X::Coalesce(es) => {
+                for (i, x) in es.iter().enumerate() {
+                    match self.expr(x, mu) {
+                        Ok(v) => {
+                            if i > 0 {
+                                self.flags.coalesce_skip = true;
+                            }
+                            return Ok(v);
+                        }
+                        Err(XErr::Type) => continue,
+                        Err(u) => return Err(u),
+                    }
+                }
+                Err(XErr::Type)
+            }
+            X::FunctionCall(f, args) => {
+                let mut vals = vec![];
+                let mut err: Option<XErr> = None;
+                for a in args {
+                    match self.expr(a, mu) {
+                        Ok(v) => vals.push(v),
+                        Err(XErr::Uncertain(u)) => return Err(XErr::Uncertain(u)),
+                        Err(x) => {
+                            err.get_or_insert(x);
+                        }
+                    }
+                }
+                if let Some(x) = err {
+                    return Err(x);
+                }
+                match (f, &vals[..]) {
+                    (Function::IsIri, [a]) => Ok(bool_lit(a.is_iri())),
+                    (Function::IsBlank, [a]) => Ok(bool_lit(a.is_bnode())),
+                    (Function::IsLiteral, [a]) => Ok(bool_lit(a.is_literal())),
+                    (Function::Str, [a]) => match a {
+                        MT::Iri(i) => Ok(MT::string(i.clone())),
+                        MT::Lit(l, _) | MT::Lang(l, _) => Ok(MT::string(l.clone())),
+                        MT::Triple(_) => Err(XErr::Uncertain("str-of-triple")),
+                        _ => Err(XErr::Type),
+                    },
+                    (Function::Lang, [a]) => match a {
+                        MT::Lang(_, t) => Ok(MT::string(t.clone())),
+                        MT::Lit(..) => Ok(MT::string("")),
+                        _ => Err(XErr::Type),
+                    },
+                    (Function::Datatype, [a]) => match a {
+                        MT::Lang(..) => Ok(MT::iri(RDF_LANGSTRING)),
+                        MT::Lit(_, d) => Ok(MT::iri(d.clone())),
+                        _ => Err(XErr::Type),
+                    },
+                    _ => Err(XErr::Uncertain("function-outside-subset")),
+                }
+            }
+            _ => Err(XErr::Uncertain("expression-outside-subset")),
+        }
+    }
+
+    /// Uncertain in the second operand wins over a type error in the first
+    fn unc_first<A, B>(x: Result<A, XErr>, y: &Result<B, XErr>) -> Result<A, XErr> {
+        if let Err(XErr::Uncertain(u)) = y {
+            return Err(XErr::Uncertain(u));
+        }
+        x
+    }
+
+    fn triples(&self, active: &Option<String>) -> Vec<Tr> {
+        match active {
+            None => self.default.clone(),
+            Some(g) => self.named.get(g).cloned().unwrap_or_default(),
+        }
+    }
+
+    fn match_named(p: &NamedNodePattern, t: &MT, mu: &mut Mu) -> bool {
+        match p {
+            NamedNodePattern::NamedNode(n) => matches!(t, MT::Iri(i) if i == n.as_str()),
+            NamedNodePattern::Variable(v) => Self::bind(mu, v.as_str(), t),
+        }
+    }
+    fn bind(m: &mut Mu, k: &str, t: &MT) -> bool {
+        match m.get(k) {
+            Some(x) => x.same_repr(t),
+            None => {
+                m.insert(k.to_string(), t.clone());
+                true
+            }
+        }
+    }
+    fn match_term(p: &TermPattern, t: &MT, mu: &mut Mu, sigma: &mut Mu) -> bool {
+        match p {
+            TermPattern::NamedNode(n) => matches!(t, MT::Iri(i) if i == n.as_str()),
+            TermPattern::Literal(l) => mt_of_lit(l).same_repr(t),
+            TermPattern::BlankNode(b) => Self::bind(sigma, b.as_str(), t),
+            TermPattern::Variable(v) => Self::bind(mu, v.as_str(), t),
+            TermPattern::Triple(tp) => match t {
+                MT::Triple(inner) => Self::match_tp(tp, inner, mu, sigma),
+                _ => false,
+            },
+        }
+    }
+    fn match_tp(tp: &TriplePattern, t: &Tr, mu: &mut Mu, sigma: &mut Mu) -> bool {
+        Self::match_term(&tp.subject, &t[0], mu, sigma) && Self::match_named(&tp.predicate, &t[1], mu) && Self::match_term(&tp.object, &t[2], mu, sigma)
+    }
+
+    fn bgp(&self, pats: &[TriplePattern], active: &Option<String>) -> Vec<Mu> {
+        let g = self.triples(active);
+        let mut cur: Vec<(Mu, Mu)> = vec![(Mu::new(), Mu::new())];
+        for tp in pats {
+            let mut next = vec![];
+            for (mu, sigma) in &cur {
+                for t in &g {
+                    let (mut m, mut s) = (mu.clone(), sigma.clone());
+                    if Self::match_tp(tp, t, &mut m, &mut s) {
+                        next.push((m, s));
+                    }
+                }
+            }
+            cur = next;
+        }
+        // one solution per distinct (mu, sigma): the blank-node multiplicity rule
+        cur.into_iter().map(|(m, _)| m).collect()
+    }
+
+    /// can this pattern have a solution that matches no triple at all?
+    fn may_be_empty_group(p: &GraphPattern) -> bool {
+        match p {
+            GraphPattern::Bgp { patterns } => patterns.is_empty(),
+            GraphPattern::Filter { inner, .. } | GraphPattern::Extend { inner, .. } | GraphPattern::Project { inner, .. } | GraphPattern::Distinct { inner } => Self::may_be_empty_group(inner),
+            GraphPattern::Union { left, right } => Self::may_be_empty_group(left) || Self::may_be_empty_group(right),
+            _ => false,
+        }
+    }
+
+    fn eval(&mut self, p: &GraphPattern, active: &Option<String>, top: bool) -> Vec<Mu> {
+        match p {
+            GraphPattern::Bgp { patterns } => self.bgp(patterns, active),
+            GraphPattern::Filter { expr, inner } => {
+                let rows = self.eval(inner, active, false);
+                let mut out = vec![];
+                for mu in rows {
+                    match self.expr(expr, &mu).and_then(|t| self.ebv(&t)) {
+                        Ok(true) => out.push(mu),
+                        Ok(false) | Err(XErr::Type) => {}
+                        Err(XErr::Uncertain(u)) => {
+                            self.uncertain.get_or_insert(u);
+                        }
+                    }
+                }
+                out
+            }
+            GraphPattern::Union { left, right } => {
+                let mut l = self.eval(left, active, false);
+                l.extend(self.eval(right, active, false));
+                l
+            }
+            GraphPattern::Graph { name, inner } => {
+                if Self::may_be_empty_group(inner) {
+                    self.flags.graph_over_empty_group = true;
+                }
+                match name {
+                    NamedNodePattern::NamedNode(n) => {
+                        if self.named.contains_key(n.as_str()) {
+                            self.eval(inner, &Some(n.as_str().to_string()), false)
+                        } else {
+                            vec![]
+                        }
+                    }
+                    NamedNodePattern::Variable(v) => {
+                        let names: Vec<String> = self.named.keys().cloned().collect();
+                        let mut out = vec![];
+                        self.graph_vars.push(v.as_str().to_string());
+                        for g in names {
+                            for mut mu in self.eval(inner, &Some(g.clone()), false) {
+                                if Self::bind(&mut mu, v.as_str(), &MT::iri(g.clone())) {
+                                    out.push(mu);
+                                }
+                            }
+                        }
+                        self.graph_vars.pop();
+                        out
+                    }
+                }
+            }
+            GraphPattern::Extend { inner, variable, expression } => {
+                let rows = self.eval(inner, active, false);
+                let mut out = vec![];
+                for mut mu in rows {
+                    if mu.contains_key(variable.as_str()) {
+                        self.uncertain.get_or_insert("extend-of-bound-variable");
+                    }
+                    match self.expr(expression, &mu) {
+                        Ok(v) => {
+                            mu.insert(variable.as_str().to_string(), v);
+                        }
+                        Err(XErr::Type) => {}
+                        Err(XErr::Uncertain(u)) => {
+                            self.uncertain.get_or_insert(u);
+                        }
+                    }
+                    out.push(mu);
+                }
+                out
+            }
+            GraphPattern::Project { inner, variables } => {
+                let rows = self.eval(inner, active, false);
+                let keep: BTreeSet<&str> = variables.iter().map(|v| v.as_str()).collect();
+                rows.into_iter()
+                    .map(|mu| {
+                        if !top && mu.keys().any(|k| !keep.contains(k.as_str())) {
+                            self.flags.nested_project_drop = true;
+                        }
+                        mu.into_iter().filter(|(k, _)| keep.contains(k.as_str())).collect()
+                    })
+                    .collect()
+            }
+            GraphPattern::Distinct { inner } => {
+                let rows = self.eval(inner, active, top);
+                let mut seen: Vec<Mu> = vec![];
+                for mu in rows {
+                    if !seen.iter().any(|m| same_mu(m, &mu)) {
+                        seen.push(mu);
+                    }
+                }
+                seen
+            }
+            GraphPattern::OrderBy { inner, expression } => {
+                // the multiset is unchanged; evaluate the keys only to notice semantics we do not judge
+                let rows = self.eval(inner, active, top);
+                for mu in &rows {
+                    for oe in expression {
+                        let (OrderExpression::Asc(e) | OrderExpression::Desc(e)) = oe;
+                        let _ = self.expr(e, mu);
+                    }
+                }
+                rows
+            }
+            GraphPattern::Slice { inner, .. } => {
+                // only reached for a slice that is not the outermost operator
+                self.uncertain.get_or_insert("nested-slice");
+                self.eval(inner, active, false)
+            }
+            _ => {
+                self.uncertain.get_or_insert("unsupported-node-reached");
+                vec![]
+            }
+        }
+    }
+}
+
+fn same_mu(a: &Mu, b: &Mu) -> bool {
+    a.len() == b.len() && a.iter().zip(b.iter()).all(|((k1, v1), (k2, v2))| k1 == k2 && v1.same_repr(v2))
+}
+
+/// The algebra operators the property lists as supported; anything else must be rejected explicitly.
+fn unsupported_pattern(p: &GraphPattern) -> Option<&'static str> {
+    use GraphPattern::*;
+    match p {
+        Bgp { .. } => None,
+        Filter { expr, inner } => unsupported_expr(expr).or_else(|| unsupported_pattern(inner)),
+        Union { left, right } => unsupported_pattern(left).or_else(|| unsupported_pattern(right)),
+        Graph { inner, .. } => unsupported_pattern(inner),
+        Extend { inner, expression, .. } => unsupported_expr(expression).or_else(|| unsupported_pattern(inner)),
+        OrderBy { inner, expression } => expression
+            .iter()
+            .find_map(|oe| {
+                let (OrderExpression::Asc(e) | OrderExpression::Desc(e)) = oe;
+                unsupported_expr(e)
+            })
+            .or_else(|| unsupported_pattern(inner)),
+        Project { inner, .. } | Distinct { inner } | Slice { inner, .. } => unsupported_pattern(inner),
+        Path { .. } => Some("Path"),
+        Join { .. } => Some("Join"),
+        LeftJoin { .. } => Some("LeftJoin"),
+        Minus { .. } => Some("Minus"),
+        Values { .. } => Some("Values"),
+        Reduced { .. } => Some("Reduced"),
+        Group { .. } => Some("Group"),
+        Service { .. } => Some("Service"),
+    }
+}
+/// functions the engine documents as not implemented (function.rs `todo`)
+fn unimplemented_function(f: &Function) -> Option<&'static str> {
+    use Function::*;
+    Some(match f {
+        Replace => "REPLACE",
+        Timezone => "TIMEZONE",
+        Tz => "TZ",
+        Now => "NOW",
+        Uuid => "UUID",
+        StrUuid => "STRUUID",
+        Md5 => "MD5",
+        Sha1 => "SHA1",
+        Sha256 => "SHA256",
+        Sha384 => "SHA384",
+        Sha512 => "SHA512",
+        StrLang => "STRLANG",
+        StrDt => "STRDT",
+        Regex => "REGEX",
+        Subject => "SUBJECT",
+        Predicate => "PREDICATE",
+        Object => "OBJECT",
+        Custom(_) => "custom",
+        _ => return None,
+    })
+}
+fn unsupported_expr(e: &Expression) -> Option<&'static str> {
+    use Expression as X;
+    match e {
+        X::NamedNode(_) | X::Literal(_) | X::Variable(_) | X::Bound(_) => None,
+        X::Or(a, b) | X::And(a, b) | X::Equal(a, b) | X::SameTerm(a, b) | X::Greater(a, b) | X::GreaterOrEqual(a, b) | X::Less(a, b) | X::LessOrEqual(a, b) | X::Add(a, b) | X::Subtract(a, b) | X::Multiply(a, b) | X::Divide(a, b) => {
+            unsupported_expr(a).or_else(|| unsupported_expr(b))
+        }
+        X::In(a, v) => unsupported_expr(a).or_else(|| v.iter().find_map(unsupported_expr)),
+        X::UnaryPlus(a) | X::UnaryMinus(a) | X::Not(a) => unsupported_expr(a),
+        X::Exists(p) => unsupported_pattern(p),
+        X::If(a, b, c) => unsupported_expr(a).or_else(|| unsupported_expr(b)).or_else(|| unsupported_expr(c)),
+        X::Coalesce(v) => v.iter().find_map(unsupported_expr),
+        X::FunctionCall(f, v) => unimplemented_function(f).or_else(|| v.iter().find_map(unsupported_expr)),
+    }
+}
+
+// ====================================================================== generators
+
+const NS: &str = "http://x/";
+fn iri(l: &str) -> MT {
+    MT::iri(format!("{NS}{l}"))
+}
+fn xl(l: &str, dt: &str) -> MT {
+    MT::lit(l, xsd(dt))
+}
+fn subj_pool() -> Vec<MT> {
+    vec![iri("a"), iri("b"), iri("g1"), MT::bn("n1"), MT::triple(iri("a"), iri("p"), xl("1", "integer"))]
+}
+fn lit_pool() -> Vec<MT> {
+    vec![
+        xl("1", "integer"),
+        xl("2", "integer"),
+        xl("01", "integer"),
+        xl("-3", "integer"),
+        MT::string("a"),
+        MT::string(""),
+        MT::string("b"),
+        MT::lang("a", "en"),
+        MT::lang("b", "fr"),
+        xl("true", "boolean"),
+        xl("false", "boolean"),
+        xl("abc", "integer"),
+        MT::lit("x", format!("{NS}dt")),
+        xl("1.5", "decimal"),
+        xl("1.0e0", "double"),
+        xl("foo", "boolean"),
+        xl("0", "integer"),
+    ]
+}
+fn obj_pool() -> Vec<MT> {
+    let mut v = vec![iri("a"), iri("b"), iri("g1"), MT::bn("n1"), MT::bn("n2"), MT::triple(MT::bn("n1"), iri("q"), iri("b")), MT::triple(iri("a"), iri("p"), xl("1", "integer"))];
+    v.extend(lit_pool());
+    v
+}
+
+fn quad_strategy() -> BoxedStrategy<Vec<MQ>> {
+    let s = prop_oneof![9 => pick(subj_pool()[..4].to_vec()), 1 => Just(subj_pool()[4].clone())];
+    let p = pick(vec![iri("p"), iri("q")]);
+    let o = prop_oneof![6 => pick(obj_pool()[..5].to_vec()), 1 => pick(obj_pool()[5..7].to_vec()), 3 => pick(lit_pool()[..5].to_vec()), 3 => pick(lit_pool())];
+    // bit 0 default graph, bit 1 g1, bit 2 g2
+    let gm = prop_oneof![8 => Just(1u8), 2 => Just(2u8), 2 => Just(4u8), 1 => Just(3u8), 1 => Just(6u8), 1 => Just(7u8), 1 => Just(5u8)];
+    prop_oneof![1 => prop::collection::vec((s.clone(), p.clone(), o.clone(), gm.clone()), 0..=4), 6 => prop::collection::vec((s, p, o, gm), 5..=14)]
+        .prop_map(|v| {
+            let mut out = vec![];
+            for (s, p, o, gm) in v {
+                for (bit, g) in [(1u8, None), (2, Some(iri("g1"))), (4, Some(iri("g2")))] {
+                    if gm & bit != 0 {
+                        out.push(MQ::new(s.clone(), p.clone(), o.clone(), g));
+                    }
+                }
+            }
+            let mut out = crate::gen::dedup(out);
+            out.truncate(15);
+            out
+        })
+        .boxed()
+}
+
+fn var_name() -> BoxedStrategy<String> {
+    prop_oneof![4 => Just("a"), 4 => Just("b"), 3 => Just("c"), 3 => Just("d"), 1 => Just("g")].prop_map(String::from).boxed()
+}
+fn t_subject(q: bool) -> BoxedStrategy<T> {
+    let mut opts: Vec<(u32, BoxedStrategy<T>)> = vec![
+        (62, var_name().prop_map(T::Var).boxed()),
+        (14, pick(subj_pool()[..4].to_vec()).prop_map(|m| if m.is_bnode() { T::Bn("x".into()) } else { T::C(m) }).boxed()),
+        (10, pick_str(&["x", "y"]).prop_map(T::Bn).boxed()),
+        (4, Just(T::Anon).boxed()),
+        (3, Just(T::C(iri("z"))).boxed()),
+    ];
+    if q {
+        opts.push((4, quoted().boxed()));
+    }
+    proptest::strategy::Union::new_weighted(opts).boxed()
+}
+fn t_pred() -> BoxedStrategy<T> {
+    prop_oneof![7 => pick(vec![iri("p"), iri("q")]).prop_map(T::C), 2 => Just(T::Var("p".into())), 1 => Just(T::Var("a".into()))].boxed()
+}
+fn t_object(q: bool) -> BoxedStrategy<T> {
+    let consts: Vec<MT> = obj_pool().into_iter().filter(|m| !m.has_bnode()).collect();
+    let mut opts: Vec<(u32, BoxedStrategy<T>)> = vec![
+        (58, var_name().prop_map(T::Var).boxed()),
+        (12, pick(consts[..5].to_vec()).prop_map(T::C).boxed()),
+        (5, pick(consts).prop_map(T::C).boxed()),
+        (10, pick_str(&["x", "y"]).prop_map(T::Bn).boxed()),
+        (4, Just(T::Anon).boxed()),
+        (3, Just(T::C(iri("z"))).boxed()),
+    ];
+    if q {
+        opts.push((5, quoted().boxed()));
+    }
+    proptest::strategy::Union::new_weighted(opts).boxed()
+}
+fn quoted() -> BoxedStrategy<T> {
+    (t_subject(false), t_pred(), t_object(false)).prop_map(|(s, p, o)| T::Quoted(Box::new(TP { s, p, o }))).boxed()
+}
+fn tp() -> BoxedStrategy<TP> {
+    let strict = (t_subject(true), t_pred(), t_object(true)).prop_map(|(s, p, o)| TP { s, p, o });
+    // loose patterns (variables around a constant predicate) keep intermediate results non-empty
+    let loose = (
+        var_name().prop_map(T::Var),
+        pick(vec![iri("p"), iri("q")]).prop_map(T::C),
+        prop_oneof![6 => var_name().prop_map(T::Var), 1 => Just(T::Bn("x".into())), 1 => Just(T::Anon)],
+    )
+        .prop_map(|(s, p, o)| TP { s, p, o });
+    prop_oneof![5 => strict, 4 => loose].boxed()
+}
+
+fn leaf() -> BoxedStrategy<E> {
+    let consts: Vec<MT> = obj_pool().into_iter().filter(|m| !m.has_bnode() && !m.is_triple()).collect();
+    prop_oneof![
+        6 => prop_oneof![8 => Just("a"), 8 => Just("b"), 4 => Just("c"), 3 => Just("d"), 2 => Just("g"), 2 => Just("x0"), 1 => Just("x1"), 1 => Just("p"), 1 => Just("u")].prop_map(|s| E::Var(s.to_string())),
+        4 => pick(consts).prop_map(E::C),
+    ]
+    .boxed()
+}
+fn val_expr(depth: u32) -> BoxedStrategy<E> {
+    if depth == 0 {
+        return leaf();
+    }
+    let d = depth - 1;
+    prop_oneof![
+        5 => leaf(),
+        2 => (pick_str(&["str", "lang", "datatype"]), val_expr(d)).prop_map(|(f, a)| E::F1(f, Box::new(a))),
+        3 => (pick_str(&["+", "-", "*"]), val_expr(d), val_expr(d)).prop_map(|(op, a, b)| E::Bin(op, Box::new(a), Box::new(b))),
+        1 => val_expr(d).prop_map(|a| E::Neg(Box::new(a))),
+        1 => (bool_expr(d), val_expr(d), val_expr(d)).prop_map(|(c, a, b)| E::If(Box::new(c), Box::new(a), Box::new(b))),
+        1 => (val_expr(d), val_expr(d), leaf()).prop_map(|(a, b, c)| E::If(Box::new(a), Box::new(b), Box::new(c))),
+        1 => prop::collection::vec(val_expr(d), 1..=3).prop_map(E::Coalesce),
+        2 => bool_expr(d),
+    ]
+    .boxed()
+}
+fn bool_expr(depth: u32) -> BoxedStrategy<E> {
+    let atom = prop_oneof![
+        8 => (pick_str(&["=", "!=", "<", ">", "<=", ">="]), val_expr(depth.min(1)), val_expr(depth.min(1))).prop_map(|(op, a, b)| E::Bin(op, Box::new(a), Box::new(b))),
+        2 => pick_str(&["a", "b", "c", "d", "g", "x0", "u"]).prop_map(E::Bound),
+        3 => (pick_str(&["isIRI", "isBlank", "isLiteral"]), leaf()).prop_map(|(f, a)| E::F1(f, Box::new(a))),
+        2 => (leaf(), leaf()).prop_map(|(a, b)| E::F2("sameTerm".into(), Box::new(a), Box::new(b))),
+        2 => leaf(),
+    ]
+    .boxed();
+    if depth == 0 {
+        return atom;
+    }
+    let d = depth - 1;
+    prop_oneof![
+        4 => atom,
+        4 => (pick_str(&["&&", "||"]), bool_expr(d), bool_expr(d)).prop_map(|(op, a, b)| E::Bin(op, Box::new(a), Box::new(b))),
+        2 => bool_expr(d).prop_map(|a| E::Not(Box::new(a))),
+    ]
+    .boxed()
+}
+fn unimpl_expr() -> BoxedStrategy<E> {
+    prop_oneof![
+        (leaf()).prop_map(|a| E::F2("REGEX".into(), Box::new(a), Box::new(E::C(MT::string("a"))))),
+        Just(E::F2("STRDT".into(), Box::new(E::C(MT::string("1"))), Box::new(E::C(MT::iri(xsd("integer")))))),
+        Just(E::F2("STRLANG".into(), Box::new(E::C(MT::string("a"))), Box::new(E::C(MT::string("en"))))),
+        leaf().prop_map(|a| E::F1("MD5".into(), Box::new(E::F1("str".into(), Box::new(a))))),
+        leaf().prop_map(|a| E::F1("TZ".into(), Box::new(a))),
+        Just(E::Bin("!=".into(), Box::new(E::F0("NOW".into())), Box::new(E::C(xl("1", "integer"))))),
+        Just(E::F1("isLiteral".into(), Box::new(E::F0("STRUUID".into())))),
+    ]
+    .boxed()
+}
+
+fn graph_name() -> BoxedStrategy<T> {
+    prop_oneof![
+        11 => Just(T::Var("g".into())),
+        2 => Just(T::Var("a".into())),
+        3 => Just(T::C(iri("g1"))),
+        2 => Just(T::C(iri("g2"))),
+        1 => Just(T::C(iri("gz"))),
+        1 => Just(T::C(iri("a"))),
+    ]
+    .boxed()
+}
+
+/// a group: one core element followed by BIND / FILTER; small weights for unsupported operators
+fn group(depth: u32, top: bool) -> BoxedStrategy<G> {
+    let triples = prop_oneof![5 => prop::collection::vec(tp(), 1..=1), 4 => prop::collection::vec(tp(), 2..=2), 2 => prop::collection::vec(tp(), 3..=3)].prop_map(El::Triples).boxed();
+    let mut cores: Vec<(u32, BoxedStrategy<Vec<El>>)> = vec![(110, triples.clone().prop_map(|e| vec![e]).boxed()), (6, Just(vec![]).boxed())];
+    if depth > 0 {
+        let d = depth - 1;
+        cores.push((28, prop::collection::vec(group(d, false), 2..=3).prop_map(|gs| vec![El::Union(gs)]).boxed()));
+        cores.push((40, (graph_name(), group(d, false)).prop_map(|(n, g)| vec![El::Graph(n, g)]).boxed()));
+        cores.push((8, select(d, false).prop_map(|s| vec![El::Sub(Box::new(s))]).boxed()));
+        cores.push((6, group(d, false).prop_map(|g| vec![El::Group(g)]).boxed()));
+        // unsupported operators
+        cores.push((2, (triples.clone(), group(d, false)).prop_map(|(t, g)| vec![t, El::Optional(g)]).boxed()));
+        cores.push((2, (triples.clone(), group(d, false)).prop_map(|(t, g)| vec![t, El::Minus(g)]).boxed()));
+        cores.push((2, (triples.clone(), graph_name(), group(d, false)).prop_map(|(t, n, g)| vec![t, El::Graph(n, g)]).boxed()));
+        cores.push((2, (group(d, false), group(d, false)).prop_map(|(a, b)| vec![El::Group(G(vec![El::Union(vec![a.clone(), b])])), El::Group(a)]).boxed()));
+        cores.push((1, group(d, false).prop_map(|g| vec![El::Service(g)]).boxed()));
+    }
+    cores.push((1, (var_name(), pick(lit_pool())).prop_map(|(v, m)| vec![El::Values(v, vec![m])]).boxed()));
+    cores.push((1, (triples.clone(), var_name(), prop::collection::vec(pick(obj_pool().into_iter().filter(|m| !m.has_bnode() && !m.is_triple()).collect::<Vec<_>>()), 1..=2)).prop_map(|(t, v, ms)| vec![t, El::Values(v, ms)]).boxed()));
+    cores.push((
+        2,
+        (t_subject(false), pick_str(&["<http://x/p>+", "<http://x/p>*", "<http://x/p>/<http://x/q>", "^<http://x/p>", "(<http://x/p>|<http://x/q>)"]), t_object(false))
+            .prop_map(|(a, p, b)| vec![El::Path(a, p, b)])
+            .boxed(),
+    ));
+    let core = proptest::strategy::Union::new_weighted(cores);
+    let _ = top;
+    let xname = format!("x{}", 2u32.saturating_sub(depth));
+    let yname = format!("y{}", 2u32.saturating_sub(depth));
+    let tail_item = prop_oneof![
+        6 => bool_expr(2).prop_map(El::Filter),
+        6 => bool_expr(1).prop_map(El::Filter),
+        2 => val_expr(1).prop_map(El::Filter),
+        14 => val_expr(2).prop_map(move |e| El::Bind(e, String::new())),
+        1 => unimpl_expr().prop_map(El::Filter),
+        // a triples block after the core (join when the core is not a BGP or follows a BIND)
+        1 => prop::collection::vec(tp(), 1..=1).prop_map(El::Triples),
+    ];
+    (core, prop_oneof![5 => prop::collection::vec(tail_item.clone(), 0..=0), 4 => prop::collection::vec(tail_item.clone(), 1..=1), 1 => prop::collection::vec(tail_item, 2..=2)])
+        .prop_map(move |(mut c, tail)| {
+            let mut nb = 0;
+            for t in tail {
+                match t {
+                    El::Bind(e, _) => {
+                        nb += 1;
+                        c.push(El::Bind(e, if nb == 1 { xname.clone() } else { yname.clone() }));
+                    }
+                    other => c.push(other),
+                }
+            }
+            G(c)
+        })
+        .boxed()
+}
+
+fn select(depth: u32, top: bool) -> BoxedStrategy<Sel> {
+    let vars = ["a", "b", "c", "d", "g", "p", "x0", "x1", "y0"];
+    let proj = prop_oneof![
+        4 => Just(None),
+        5 => prop::collection::vec(pick_str(&vars), 1..=3).prop_map(|mut v| {
+            v.sort();
+            v.dedup();
+            Some(v.into_iter().map(PItem::V).collect::<Vec<_>>())
+        }),
+        1 => (pick_str(&["a", "b"]), val_expr(1)).prop_map(|(v, e)| Some(vec![PItem::V(v), PItem::Expr(e, "e".into())])),
+    ];
+    let order = prop_oneof![5 => Just(vec![]), 1 => prop::collection::vec((any::<bool>(), pick_str(&["a", "b", "c"]).prop_map(E::Var)), 1..=2)];
+    let slice = if top {
+        prop_oneof![3 => Just((None, None)), 1 => (prop::option::of(0u32..4), prop::option::of(0u32..5))].boxed()
+    } else {
+        Just((None, None)).boxed()
+    };
+    let agg = if top {
+        prop_oneof![
+            60 => Just(None),
+            1 => Just(Some((Some(vec![PItem::Agg("COUNT(*)".into(), "n".into())]), None))),
+            1 => Just(Some((Some(vec![PItem::V("a".into()), PItem::Agg("COUNT(?b)".into(), "n".into())]), Some("a".to_string())))),
+        ]
+        .boxed()
+    } else {
+        Just(None).boxed()
+    };
+    (prop::bool::weighted(0.25), proj, group(depth, top), order, slice, agg)
+        .prop_map(|(distinct, proj, body, order, (offset, limit), agg)| match agg {
+            Some((p, gb)) => Sel { distinct, proj: p, body, group_by: gb, order: vec![], offset, limit },
+            None => Sel { distinct, proj, body, group_by: None, order, offset, limit },
+        })
+        .boxed()
+}
+
+fn query() -> BoxedStrategy<Q> {
+    let form = prop_oneof![
+        30 => select(2, true).prop_map(Form::Select),
+        10 => group(2, true).prop_map(Form::Ask),
+        1 => group(1, true).prop_map(|g| if g.0.len() % 2 == 0 { Form::Construct(g) } else { Form::Describe(g) }),
+    ];
+    let ds = prop_oneof![
+        60 => Just((vec![], vec![])),
+        1 => Just((vec![format!("{NS}g1")], vec![])),
+        1 => Just((vec![format!("{NS}g1"), format!("{NS}g2")], vec![format!("{NS}g2")])),
+        1 => Just((vec![], vec![format!("{NS}g1")])),
+    ];
+    (ds, form).prop_map(|((from, from_named), form)| Q { from, from_named, form }).boxed()
+}
+
+#[derive(Clone, Debug, Serialize, Deserialize)]
+pub struct Case {
+    pub quads: Vec<MQ>,
+    pub query: Q,
+    /// if set, replaces the rendered query (hand-written corpus cases)
+    #[serde(default)]
+    pub text: Option<String>,
+    pub store: u8,
+}
+
+// ====================================================================== the check
+
+pub struct C13;
+
+const STORES: &[&str] = &["FastDataset", "LightDataset", "BTreeSet<Spog>", "Vec<Spog>", "HashSet<Gspo>"];
+
+fn run_on_store(store: usize, quads: &[MQ], text: &str) -> Outcome {
+    fn go<D: sophia_api::dataset::CollectibleDataset>(quads: &[MQ], text: &str) -> Outcome {
+        match d_from::<D>(quads) {
+            Ok(d) => run_query(&d, text),
+            Err(e) => Outcome::OtherErr(format!("harness: cannot build dataset: {e}")),
+        }
+    }
+    match store % STORES.len() {
+        0 => go::<FastDataset>(quads, text),
+        1 => go::<LightDataset>(quads, text),
+        2 => go::<BTreeSpog>(quads, text),
+        3 => go::<VecSpog>(quads, text),
+        _ => go::<HashGspo>(quads, text),
+    }
+}
+
+fn show_row(vars: &[String], r: &[Option<MT>]) -> String {
+    vars.iter().zip(r.iter()).map(|(v, t)| format!("?{v}={}", t.as_ref().map(MT::show).unwrap_or_else(|| "-".into()))).collect::<Vec<_>>().join(" ")
+}
+fn show_rows(vars: &[String], rows: &[Vec<Option<MT>>]) -> String {
+    let mut v: Vec<String> = rows.iter().map(|r| show_row(vars, r)).collect();
+    v.sort();
+    if v.is_empty() {
+        "(none)".into()
+    } else {
+        v.join("\n    ")
+    }
+}
+
+fn count_tps(p: &GraphPattern) -> (usize, usize) {
+    // (triple patterns, operators above BGPs)
+    use GraphPattern::*;
+    match p {
+        Bgp { patterns } => (patterns.len(), 0),
+        Filter { inner, .. } | Graph { inner, .. } | Extend { inner, .. } | Distinct { inner } | Slice { inner, .. } | OrderBy { inner, .. } => {
+            let (a, b) = count_tps(inner);
+            (a, b + 1)
+        }
+        Project { inner, .. } => count_tps(inner),
+        Union { left, right } => {
+            let (a, b) = count_tps(left);
+            let (c, d) = count_tps(right);
+            (a + c, b + d + 1)
+        }
+        _ => (0, 1),
+    }
+}
+
+fn op_classes(p: &GraphPattern, out: &mut BTreeSet<&'static str>, under_graph_var: bool) {
+    use GraphPattern::*;
+    match p {
+        Bgp { patterns } => {
+            out.insert(if patterns.is_empty() { "op:empty-bgp" } else { "op:bgp" });
+            let mut vars: Vec<&str> = vec![];
+            for tp in patterns {
+                for t in [&tp.subject, &tp.object] {
+                    match t {
+                        TermPattern::BlankNode(_) => {
+                            out.insert("tp:blank-placeholder");
+                        }
+                        TermPattern::Triple(_) => {
+                            out.insert("tp:quoted-pattern");
+                        }
+                        TermPattern::Variable(v) => {
+                            if vars.contains(&v.as_str()) {
+                                out.insert("tp:repeated-variable");
+                            }
+                            vars.push(v.as_str());
+                        }
+                        _ => {}
+                    }
+                }
+                if let NamedNodePattern::Variable(v) = &tp.predicate {
+                    if vars.contains(&v.as_str()) {
+                        out.insert("tp:repeated-variable");
+                    }
+                    vars.push(v.as_str());
+                }
+            }
+            if patterns.len() >= 2 {
+                out.insert("op:bgp-2+");
+            }
+            if under_graph_var && vars.contains(&"g") {
+                out.insert("graph:var-reused-inside");
+            }
+        }
+        Filter { inner, .. } => {
+            out.insert("op:filter");
+            op_classes(inner, out, under_graph_var)
+        }
+        Union { left, right } => {
+            out.insert("op:union");
+            op_classes(left, out, under_graph_var);
+            op_classes(right, out, under_graph_var)
+        }
+        Graph { name, inner } => {
+            let v = matches!(name, NamedNodePattern::Variable(_));
+            out.insert(if v { "op:graph-var" } else { "op:graph-const" });
+            op_classes(inner, out, under_graph_var || v)
+        }
+        Extend { inner, .. } => {
+            out.insert("op:extend");
+            op_classes(inner, out, under_graph_var)
+        }
+        Project { inner, .. } => op_classes(inner, out, under_graph_var),
+        Distinct { inner } => {
+            out.insert("op:distinct");
+            op_classes(inner, out, under_graph_var)
+        }
+        OrderBy { inner, .. } => {
+            out.insert("op:order-by");
+            op_classes(inner, out, under_graph_var)
+        }
+        Slice { inner, .. } => {
+            out.insert("op:slice");
+            op_classes(inner, out, under_graph_var)
+        }
+        _ => {}
+    }
+}
+
+impl Case {
+    pub fn text(&self) -> String {
+        self.text.clone().unwrap_or_else(|| self.query.render())
+    }
+}
+
+impl Check for C13 {
+    type Case = Case;
+    const ID: &'static str = "C13";
+    fn rule() -> String {
+        "dataset (<=15 quads over a dense universe: default graph + 2 named graphs sharing triples, IRIs/blank nodes/quoted triples/literals of every value class incl. ill-typed) x query text from a grammar (BGPs with repeated variables, blank placeholders, quoted patterns, present/absent constants; UNION; GRAPH <g>|?g incl. ?g reused inside; FILTER/BIND over a crisp expression subset with unbound/type-error operands; DISTINCT; projection incl. (expr AS ?v); sub-select; ORDER BY; OFFSET/LIMIT; ASK; plus unsupported operators). Oracle: naive evaluator over the spargebra algebra (multiset equality; sub-multiset of right cardinality under a top-level slice; ASK boolean); algebra with an operator outside the supported list must give Err(NotImplemented); never a panic. Non-trivial = (>=2 triple patterns or an operator above the BGP) and (>=1 reference solution, or an unsupported operator present). Distinct by hash of the case.".into()
+    }
+    fn assumptions() -> Vec<String> {
+        vec![
+            "expression semantics are judged on a crisp subset only; cases whose evaluation touches anything else (lang-vs-lang comparisons, ill-typed booleans in comparisons, decimal/double arithmetic, ordering of equal unordered literals, quoted triples in comparisons, dateTimes) are skipped and counted as class skipped:<reason>".into(),
+            "blank node labels of results are compared literally (the engine returns the stored labels)".into(),
+            "datasets are sets of quads (duplicates removed before loading Vec-backed stores); graph names are IRIs".into(),
+            "for dataset clauses (FROM / FROM NAMED) either Err(NotImplemented) or the correct answer is accepted".into(),
+        ]
+    }
+    fn cases(tier: Tier) -> u32 {
+        tier.pick(40_000, 1_500_000)
+    }
+    fn strategy(_tier: Tier) -> BoxedStrategy<Case> {
+        (quad_strategy(), query(), 0u8..STORES.len() as u8).prop_map(|(quads, query, store)| Case { quads, query, text: None, store }).boxed()
+    }
+    fn show(case: &Case) -> Value {
+        json!({ "query": case.text(), "data": case.quads.iter().map(MQ::show).collect::<Vec<_>>(), "store": STORES[case.store as usize % STORES.len()] })
+    }
+    fn run(case: &Case, ctx: &mut Ctx) {
+        let text = case.text();
+        let quads = crate::gen::dedup(case.quads.clone());
+        let parsed = match spargebra::Query::parse(&text, None) {
+            Ok(q) => q,
+            Err(e) => {
+                ctx.class("parse-rejected");
+                if ctx.strict {
+                    ctx.fail("harness/unparsable-replay", format!("{e}\n{text}"));
+                }
+                return;
+            }
+        };
+        let (kind, dataset, pattern) = match &parsed {
+            spargebra::Query::Select { dataset, pattern, .. } => ("select", dataset, pattern),
+            spargebra::Query::Ask { dataset, pattern, .. } => ("ask", dataset, pattern),
+            spargebra::Query::Construct { dataset, pattern, .. } => ("construct", dataset, pattern),
+            spargebra::Query::Describe { dataset, pattern, .. } => ("describe", dataset, pattern),
+        };
+        ctx.class(format!("form:{kind}"));
+        let unsupported: Option<&'static str> = match kind {
+            "construct" => Some("CONSTRUCT"),
+            "describe" => Some("DESCRIBE"),
+            _ => unsupported_pattern(pattern),
+        };
+        let mut ops = BTreeSet::new();
+        op_classes(pattern, &mut ops, false);
+        for o in &ops {
+            ctx.class(*o);
+        }
+        let outcome = run_on_store(case.store as usize, &quads, &text);
+        let data = || format!("query: {text}\ndata:\n    {}\nstore: {}", quads.iter().map(MQ::show).collect::<Vec<_>>().join("\n    "), STORES[case.store as usize % STORES.len()]);
+        if let Outcome::Panic(p) = &outcome {
+            ctx.fail(format!("panic/{}", panic_site(p)), format!("engine panicked: {p}\n{}", data()));
+            return;
+        }
+        if let Some(u) = unsupported {
+            ctx.class(format!("unsupported:{u}"));
+            ctx.nontrivial();
+            match &outcome {
+                Outcome::NotImpl(_) => {}
+                other => {
+                    let is_fn = unsupported_pattern_is_function(pattern);
+                    let sig = if is_fn { "unsupported/function-not-rejected".to_string() } else { format!("unsupported/{u}-not-rejected") };
+                    ctx.fail(sig, format!("the query uses {u}, which the engine does not implement, but the result is not Err(NotImplemented): {}\n{}", brief(other), data()));
+                }
+            }
+            return;
+        }
+        // reference evaluation
+        let mut ev = Ev { default: vec![], named: BTreeMap::new(), flags: Flags::default(), graph_vars: vec![], uncertain: None };
+        match dataset {
+            None => {
+                for q in &quads {
+                    let t = [q.s.clone(), q.p.clone(), q.o.clone()];
+                    match &q.g {
+                        None => ev.default.push(t),
+                        Some(MT::Iri(g)) => ev.named.entry(g.clone()).or_default().push(t),
+                        Some(_) => {
+                            ctx.class("skipped:non-iri-graph-name");
+                            return;
+                        }
+                    }
+                }
+            }
+            Some(ds) => {
+                ctx.class("dataset-clause");
+                let graph_of = |name: &str| -> Vec<Tr> { quads.iter().filter(|q| matches!(&q.g, Some(MT::Iri(g)) if g == name)).map(|q| [q.s.clone(), q.p.clone(), q.o.clone()]).collect() };
+                let mut seen: BTreeSet<MQ> = BTreeSet::new();
+                for g in &ds.default {
+                    for t in graph_of(g.as_str()) {
+                        if seen.insert(MQ::new(t[0].clone(), t[1].clone(), t[2].clone(), None)) {
+                            ev.default.push(t);
+                        }
+                    }
+                }
+                for g in ds.named.iter().flatten() {
+                    let ts = graph_of(g.as_str());
+                    if !ts.is_empty() {
+                        ev.named.insert(g.as_str().to_string(), ts);
+                    }
+                }
+                if matches!(outcome, Outcome::NotImpl(_)) {
+                    ctx.nontrivial();
+                    return;
+                }
+            }
+        }
+        let (slice, body) = match pattern {
+            GraphPattern::Slice { inner, start, length } => (Some((*start, *length)), &**inner),
+            p => (None, p),
+        };
+        let rows = ev.eval(body, &None, true);
+        if let Some(u) = ev.uncertain {
+            ctx.class(format!("skipped:{u}"));
+            return;
+        }
+        let f = &ev.flags;
+        for (on, name) in [
+            (f.logic_rescue, "expr:error-operand-rescued-by-logic"),
+            (f.ebv_illtyped_numeric, "expr:ebv-of-ill-typed-numeric"),
+            (f.if_cond_error, "expr:if-condition-error"),
+            (f.graph_var_in_expr, "graph:var-read-in-inner-expression"),
+            (f.graph_over_empty_group, "graph:over-empty-group"),
+            (f.nested_project_drop, "subselect:drops-variable"),
+            (f.coalesce_skip, "expr:coalesce-skips-error"),
+        ] {
+            if on {
+                ctx.class(name);
+            }
+        }
+        let (ntp, nops) = count_tps(pattern);
+        ctx.class(match rows.len() {
+            0 => "solutions:0",
+            1 => "solutions:1",
+            _ => "solutions:2+",
+        });
+        if (ntp >= 2 || nops >= 1) && !rows.is_empty() {
+            ctx.nontrivial();
+        }
+        // trigger-keyed signature for any mismatch
+        let sig = |what: &str| -> String {
+            if f.graph_var_in_expr {
+                "graph-var/read-by-inner-expression".into()
+            } else if f.nested_project_drop {
+                "subselect/projected-away-variable-visible".into()
+            } else if f.if_cond_error {
+                "if/condition-without-ebv".into()
+            } else if f.logic_rescue {
+                "filter/logical-op-with-error-operand".into()
+            } else if f.ebv_illtyped_numeric {
+                "ebv/ill-typed-numeric".into()
+            } else if f.graph_over_empty_group {
+                "graph/over-empty-group".into()
+            } else {
+                let mut o: Vec<&str> = ops.iter().copied().filter(|o| o.starts_with("op:") && *o != "op:bgp" && *o != "op:bgp-2+").collect();
+                if o.is_empty() {
+                    o.push("op:bgp");
+                }
+                format!("eval/{what}/{}", o.join("+"))
+            }
+        };
+        match (kind, outcome) {
+            ("ask", Outcome::Bool(b)) => {
+                let exp = !rows.is_empty();
+                if b != exp {
+                    ctx.fail(sig("ask"), format!("ASK answered {b}, the algebra gives {exp} ({} solutions)\n{}", rows.len(), data()));
+                }
+            }
+            ("select", Outcome::Rows { vars, rows: got }) => {
+                let pvars: Vec<String> = match top_project(body) {
+                    Some(v) => v,
+                    None => {
+                        ctx.class("skipped:no-top-projection");
+                        return;
+                    }
+                };
+                let mut a = vars.clone();
+                a.sort();
+                let mut b = pvars.clone();
+                b.sort();
+                if a != b {
+                    ctx.fail("select/variables", format!("variables() = {vars:?}, projection = {pvars:?}\n{}", data()));
+                    return;
+                }
+                let mut exp: Vec<Vec<Option<MT>>> = rows.iter().map(|mu| vars.iter().map(|v| mu.get(v).cloned()).collect()).collect();
+                let mut got = got;
+                let key = |r: &Vec<Option<MT>>| r.iter().map(|t| t.as_ref().map(MT::show).unwrap_or_default()).collect::<Vec<_>>();
+                exp.sort_by_key(key);
+                got.sort_by_key(key);
+                let same_row = |x: &Vec<Option<MT>>, y: &Vec<Option<MT>>| {
+                    x.iter().zip(y.iter()).all(|(p, q)| match (p, q) {
+                        (None, None) => true,
+                        (Some(p), Some(q)) => p.same_repr(q),
+                        _ => false,
+                    })
+                };
+                match slice {
+                    None => {
+                        let ok = exp.len() == got.len() && exp.iter().zip(got.iter()).all(|(x, y)| same_row(x, y));
+                        if !ok {
+                            ctx.fail(sig("select"), format!("solution multisets differ\n  engine ({}):\n    {}\n  algebra ({}):\n    {}\n{}", got.len(), show_rows(&vars, &got), exp.len(), show_rows(&vars, &exp), data()));
+                        }
+                    }
+                    Some((start, length)) => {
+                        let avail = exp.len().saturating_sub(start);
+                        let n = length.map(|l| l.min(avail)).unwrap_or(avail);
+                        // sub-multiset check (both sorted)
+                        let mut pool = exp.clone();
+                        let mut sub = true;
+                        for r in &got {
+                            match pool.iter().position(|x| same_row(x, r)) {
+                                Some(i) => {
+                                    pool.remove(i);
+                                }
+                                None => sub = false,
+                            }
+                        }
+                        if got.len() != n || !sub {
+                            ctx.fail(
+                                format!("slice/{}", sig("select")),
+                                format!("OFFSET {start} LIMIT {length:?}: engine returned {} rows (expected {n}), sub-multiset of the unsliced result: {sub}\n  engine:\n    {}\n  unsliced algebra result ({}):\n    {}\n{}", got.len(), show_rows(&vars, &got), exp.len(), show_rows(&vars, &exp), data()),
+                            );
+                        }
+                    }
+                }
+            }
+            (_, other) => {
+                ctx.fail(sig("error"), format!("supported query did not produce a result: {}\n{}", brief(&other), data()));
+            }
+        }
+    }
+}
+
+fn brief(o: &Outcome) -> String {
+    match o {
+        Outcome::Rows { rows, .. } => format!("Ok({} rows)", rows.len()),
+        Outcome::Bool(b) => format!("Ok({b})"),
+        Outcome::NotImpl(s) => format!("Err(NotImplemented({s}))"),
+        Outcome::OtherErr(s) => format!("Err({s})"),
+        Outcome::Panic(p) => format!("panic {p}"),
+    }
+}
+
+fn top_project(p: &GraphPattern) -> Option<Vec<String>> {
+    match p {
+        GraphPattern::Project { variables, .. } => Some(variables.iter().map(|v| v.as_str().to_string()).collect()),
+        GraphPattern::Distinct { inner } | GraphPattern::Slice { inner, .. } => top_project(inner),
+        _ => None,
+    }
+}
+
+/// is the (first) unsupported thing an unimplemented function rather than an algebra operator?
+fn unsupported_pattern_is_function(p: &GraphPattern) -> bool {
+    fn strip(p: &GraphPattern) -> Option<&'static str> {
+        use GraphPattern::*;
+        match p {
+            Bgp { .. } => None,
+            Filter { inner, .. } | Graph { inner, .. } | Extend { inner, .. } | OrderBy { inner, .. } | Project { inner, .. } | Distinct { inner } | Slice { inner, .. } => strip(inner),
+            Union { left, right } => strip(left).or_else(|| strip(right)),
+            _ => Some("op"),
+        }
+    }
+    strip(p).is_none()
+}
+
+pub fn main(opts: &Opts) -> i32 {
+    drive::<C13>(opts)
 }
 pub fn worker(_args: &[String]) -> i32 {
     2
